@@ -41,8 +41,8 @@ EXPECTED_PROBES = ["a.TTLibError", "a.opened", "b.undecodable", "b.resaved_uncha
 SMALL = 8192
 
 TIERS = {
-    "quick": {"budget_s": 170, "determinism_sample": 12, "payload_faults": 6, "flip_variants": 4, "big_trunc_samples": 48, "n": {"payload": 1400, "torn": 400, "garbage": 300, "failsave": 700, "text": 1200}, "minimise_s": 45, "max_minimise": 3},
-    "thorough": {"budget_s": 1700, "determinism_sample": 100, "payload_faults": 12, "flip_variants": 10, "big_trunc_samples": 400, "n": {"payload": 12000, "torn": 5000, "garbage": 3000, "failsave": 5000, "text": 20000}, "minimise_s": 120, "max_minimise": 6},
+    "quick": {"budget_s": 600, "determinism_sample": 12, "payload_faults": 6, "flip_variants": 4, "big_trunc_samples": 48, "n": {"payload": 1400, "torn": 400, "garbage": 300, "failsave": 700, "text": 1200}, "minimise_s": 45, "max_minimise": 3},
+    "thorough": {"budget_s": 5400, "determinism_sample": 100, "payload_faults": 12, "flip_variants": 10, "big_trunc_samples": 400, "n": {"payload": 12000, "torn": 5000, "garbage": 3000, "failsave": 5000, "text": 20000}, "minimise_s": 120, "max_minimise": 6},
 }
 
 CHUNK = 512  # fault positions per run
